@@ -438,6 +438,7 @@ pub fn c18_case(dir: &Path, c: &C18Case) -> Result<String, V> {
                 let mut busy_user: Option<std::thread::JoinHandle<Result<(), String>>> = None;
                 if c.writer_busy && tick == c.k && refp && allowed {
                     let h2 = h.clone();
+                    iohook::stall_reset();
                     busy_user = Some(
                         std::thread::Builder::new()
                             .name("vh-user-op".into())
